@@ -34,6 +34,12 @@ theorem fact_add_deletes_previous :
     Facts.C16.addDeleteConditions = ["service_id = ? AND credential_subject_id = ?"] ∧
     Facts.C16.incrementExpr = ["service.LastLamportTimestamp + 1"] := by decide
 
+/-- `setTimestamp` stores the timestamp of the response it applies UNCONDITIONALLY (no "keep the maximum" guard): a late,
+    older response rolls the replica's timestamp back together with the entries it re-installs, so the next poll heals it
+    (`overlapping_polls_heal`); `Store.add` in client mode does the same -/
+theorem fact_set_timestamp_unconditional :
+    Facts.C16.setTimestampStmts = ["service.ID = serviceID", "service.LastLamportTimestamp = timestamp", "service.Seed = seed"] := rfl
+
 /-- expiry comparisons: prune removes `exp < now`, search hides `exp <= now`, only validated rows are searched -/
 theorem fact_expiry_comparisons :
     Facts.C16.pruneConditions = ["presentation_expiration < ?"] ∧
@@ -354,6 +360,27 @@ theorem seed_change_partial_response_unsafe :
     ("a", "v2") ∈ w2.S.liveKeys w2.t ∧ ("a", "v2") ∉ w2.C.liveKeys w2.t ∧ w2.C.seed = w2.S.seed := by
   decide
 
+
+/-! ### overlapping polls of one client (`updateService` is not serialised) — outside `Reach`, shown by witnesses -/
+
+/-- two overlapping polls, the older response applied last after a refresh: the replica re-installs the superseded entry
+    but rolls its timestamp back with it, so the following polls heal it -/
+theorem overlapping_polls_heal :
+    let w := run factCfg exDef { t := 10 }
+      [.register (exVP "a" "v1" 100), .dpollStart, .register (exVP "a" "v2" 105), .pollA, .pollB id, .dpollFinish 0 id]
+    let w2 := poll factCfg exDef (poll factCfg exDef w id) id
+    w.C.rows.map (·.id) = ["v1"] ∧ w.C.lastTs = 1 ∧ w2.C.rows.map (·.id) = ["v2"] ∧ w2.C.lastTs = 2 := by decide
+
+/-- but two poller threads are enough to lose an entry for good: thread 1's response A is slow; thread 2 completes poll B,
+    then starts poll C (answered by the server) BEFORE A is applied and applies C AFTER it: A rolls the timestamp back to 1,
+    C moves it to 3 without delivering the entry at 2 -/
+theorem overlapping_polls_can_diverge :
+    let w := run factCfg exDef { t := 10 }
+      [.register (exVP "a" "v1" 100), .dpollStart, .register (exVP "a" "v2" 105), .pollA, .pollB id,
+       .register (exVP "b" "v3" 100), .dpollStart, .dpollFinish 0 id, .dpollFinish 0 id]
+    let w2 := poll factCfg exDef (poll factCfg exDef w id) id
+    ("a", "v2") ∈ w2.S.liveKeys w2.t ∧ ("a", "v2") ∉ w2.C.liveKeys w2.t ∧ ("a", "v1") ∈ w2.C.liveKeys w2.t ∧
+    w2.C.seed = w2.S.seed ∧ w2.C.lastTs = w2.S.lastTs := by decide
 
 /-! ### totality -/
 
